@@ -120,6 +120,37 @@ theorem pool_results_closed_once (P : Params J V) (jobs : List J) (n : Nat) (hn 
   intro hd hcap ht
   exact (terminal_shape P jobs (Or.inl hd) hcap n hn c hr ht).2.2.2.2.2.2
 
+/-! ## the cells a job owns (the `ownCell` exemption of `Facts.raceFree`) -/
+
+/-- half-matrix mode: the cells written for two jobs at different positions of the producer's list never
+coincide (this also excludes a repeated job) — the assumption under which un-locked writes of
+`outmatrix[sp.i][sp.j]`, `outmatrix[sp.j][sp.i]` by different workers do not race -/
+theorem halfJobs_cells_disjoint (n : Nat) :
+    (halfJobs n).Pairwise (fun p q => ∀ x, x ∈ cellsOf p → x ∈ cellsOf q → False) := by
+  unfold halfJobs
+  rw [List.pairwise_flatMap]
+  constructor
+  · intro i _
+    rw [List.pairwise_map]
+    apply List.Pairwise.filter
+    apply List.Pairwise.imp _ List.pairwise_lt_range
+    intro a b hab x hx hy
+    simp only [cellsOf, List.mem_cons, List.mem_nil_iff, or_false] at hx hy
+    rcases hx with rfl | rfl <;> rcases hy with h | h <;> simp only [Prod.mk.injEq] at h <;> omega
+  · apply List.Pairwise.imp _ List.pairwise_lt_range
+    intro i₁ i₂ hi x hx y hy z hz₁ hz₂
+    simp only [List.mem_map, List.mem_filter, List.mem_range, decide_eq_true_eq] at hx hy
+    obtain ⟨a, ⟨_, ha⟩, rfl⟩ := hx
+    obtain ⟨b, ⟨_, hb⟩, rfl⟩ := hy
+    simp only [cellsOf, List.mem_cons, List.mem_nil_iff, or_false] at hz₁ hz₂
+    rcases hz₁ with rfl | rfl <;> rcases hz₂ with h | h <;> simp only [Prod.mk.injEq] at h <;> omega
+
+/-- range mode with overlapping ranges (as `--range1 0:1 --range2 0:1`): the pairs `(0,1)` and `(1,0)` are both
+jobs and own the *same* cells — two workers write them without a lock (reproduced by the race detector) -/
+theorem rangeJobs_cells_overlap :
+    ∃ p q, p ∈ rangeJobs 0 1 0 1 ∧ q ∈ rangeJobs 0 1 0 1 ∧ p ≠ q ∧ ∃ x, x ∈ cellsOf p ∧ x ∈ cellsOf q :=
+  ⟨(0, 1), (1, 0), by decide, by decide, by decide, (0, 1), by decide, by decide⟩
+
 /-! ## the model mirrors the defects of the unchanged `DistMatrix` -/
 
 omit [DecidableEq J] in
